@@ -2,6 +2,7 @@ import PlasVerif.Driver.Util
 import PlasVerif.Model.Verbatim
 import PlasVerif.Model.MathParse
 import PlasVerif.Model.NoCharsub
+import PlasVerif.Generated.NoCharsub
 import PlasVerif.Spec.DocTree
 namespace PlasVerif.Driver.C11
 open PlasVerif.Driver PlasVerif.Model.Catcodes PlasVerif.Model.Tokenizer PlasVerif.Model.Verbatim
@@ -55,7 +56,7 @@ def mathjaxTop : Kind → F → List Nat
 
 def handle : List String → String
   -- venv <begun> <name> <body> <rest> (comma separated code points, `-` = empty): environment body followed by its end marker and more input
-  | ["venv", b, n, bd, rs] | ["vdoc", b, n, bd, rs] =>
+  | ["venv", b, n, bd, rs] | ["vdoc", b, n, bd, rs] | ["vdocp", b, n, bd, rs] =>
     match bool? b, cps? n, cps? bd, cps? rs with
     | some b, some name, some body, some rest =>
       let pat := (patterns b 92 123 125 name).1
@@ -70,7 +71,7 @@ def handle : List String → String
     | some b, some name, some input => s!"{resStr (verbatimEnv b 92 123 125 name input)}\t-"
     | _, _, _ => "bad-op"
   -- verb <star> <delimiter> | <body> | <rest>
-  | ["verb", st, d, bd, rs] | ["verbdoc", st, d, bd, rs] =>
+  | ["verb", st, d, bd, rs] | ["verbdoc", st, d, bd, rs] | ["verbdocp", st, d, bd, rs] =>
     match bool? st, d.toNat?, cps? bd, cps? rs with
     | some st, some d, some body, some rest =>
       let input := (if st then [42] else []) ++ d :: body ++ closing d :: rest
@@ -99,6 +100,20 @@ def handle : List String → String
       let relex := joinSp ((stripBlanks (tokenize defaultCats s)).map tokStr)
       s!"{model}\t{spec}\t{relex}\t{cps (render f)}\t{joinSp ((toks f).map tokStr)}"
     | _, _ => "bad-op"
+  -- nsub <class> <nested> <chars> : `node.normalize(document.charsubs)` on a node of the class holding the characters
+  --   (one element deeper when nested); the class's `nosub` flag comes from the regenerated table
+  | ["nsub", cls, nested, w] =>
+    match cps? w, bool? nested, PlasVerif.Generated.NoCharsub.nosubClasses.lookup cls with
+    | some chars, some nested, some flag =>
+      let kids := chars.map PlasVerif.Model.NoCharsub.charTok
+      let inner := if nested then
+          [PlasVerif.Model.Digest.Tree.node (PlasVerif.Model.NoCharsub.groupItem (.item 2)) (.item 1) kids]
+        else kids
+      let it := { PlasVerif.Model.NoCharsub.nosubItem (.item 1) 1 .env with nosub := flag }
+      let out := PlasVerif.Spec.DocTree.allChars (PlasVerif.Model.Digest.norm true (.node it .unset inner))
+      let spec := if noSubstitutionClasses.contains cls then cps chars else "-"
+      s!"{cps out}\t{spec}"
+    | _, _, _ => "bad-op"
   -- mgrp <chars> : text of a brace group inside mathematics after its digest-time normalisation
   --   model = repaired variant (no substitution in mathematics), aux = the pinned (as-is) variant (D17)
   | ["mgrp", w] =>
